@@ -11,3 +11,8 @@ reg("C07", "exploration",
     "The round-trip law apply_delta(base, compute_delta(base, cur)) == cur is checked under type-exact canonical JSON equality on every ordered pair of an enumerated universe of 1266 small objects (dotted/empty keys, every JSON scalar type, lists, nested objects; ~1.6M pairs, exhaustive for that universe) plus random payload-shaped pairs; the on-disk path (write_snapshot_auto delta mode + read_snapshot, both call forms) is run against ten baseline conditions (present, deleted with/without sidecar, truncated, garbage, empty, header-only, wrong shape, directory, temp-file decoys) and must return the payload, {} or raise - never another object.",
     "Only codec 'none' exists in the image (no zstandard). Trusts the harness' canonical-JSON encoder. A well-formed baseline with foreign content under the same etag is not generated.",
     "round-trip oracle over exhaustive small universe + fault-conditioned disk round trips on the real codec/reader/writer")
+
+reg("C12", "exploration",
+    "Generated graphs (chains, stars, cycles, self-loops, parallel edges, negative/zero/huge weights, unknown relations, tags, empty labels), texts, decay modes and every cap at 0/1/tight/loose (validated configs, plus raw configs for iter_cap_layers/relax_cap which the validator rejects) and slice caps are run through the real t1_propagate with the stage cache off. Each call is judged by model-free invariants (seed set, reachability within min(radius, layers) hops, pops/layers/relaxations within the effective budgets, sorted unique ids per graph, multi-graph result = concatenation and counter sums of single-graph runs, store fingerprint and arguments unchanged, repeat call equal), by hooked work counts (t1.heapq proxy, _compute_decay wrapper) against the reported counters, and by exact comparison with an independent reference model of the spreading rule (touched ids, all six counters, max_delta). Sampled: held on the cases observed.",
+    "Trusts the harness' reference model (cross-checked by the model-free invariants and hooked event counts). Contribution values are only observable through touched sets, counters and max_delta. With perf frontier/visited/dedupe caps on, only invariants are enforced.",
+    "invariant assertions + hooked event counts + reference-model differential on the real stage function")
